@@ -37,6 +37,7 @@ CONSTANTS BodyAlphabet = "%(alpha)s"
  MaxBody = %(k)d
  SpellBody = 1
  PairBody = 1
+ PfBody = 1
  EmitFrom = %(emit)d
 INVARIANTS TypeOK InDomain OracleLaws PairLaws AlphabetOK EmitCase
 CHECK_DEADLOCK FALSE
@@ -45,11 +46,23 @@ CTX = {
     "top": "AAA %s ZZZ",
     "listitem": "* AAA %s ZZZ\n",
     "tablecell": "{|\n|-\n| AAA %s ZZZ\n|}\n",
+    "caption": "{|\n|+ AAA %s ZZZ\n|-\n| x\n|}\n",
+    "pf-lc": "AAA {{lc:%s}} ZZZ",
+    "pf-uc": "AAA {{uc:%s}} ZZZ",
+    "pf-lcfirst": "AAA {{lcfirst:%s}} ZZZ",
+    "pf-ucfirst": "AAA {{ucfirst:%s}} ZZZ",
+    "pf-urlencode": "AAA {{urlencode:%s}} ZZZ",
+    "pf-anchorencode": "AAA {{anchorencode:%s}} ZZZ",
+    "pf-padleft": "AAA {{padleft:%s|2|x}} ZZZ",
+    "pf-padright": "AAA {{padright:%s|2|x}} ZZZ",
+    "pf-formatnum": "AAA {{formatnum:%s}} ZZZ",
+    "pf-tag": "AAA {{#tag:span|%s}} ZZZ",
+    "pf-if": "AAA {{#if:x|%s}} ZZZ",
     "bold": "'''AAA %s ZZZ'''",
     "tplarg": "{{Echo|AAA %s ZZZ}}",
     "tplbody": "AAA %s ZZZ",          # text of the template page; the article is {{B<n>}}
 }
-PLAIN = ("top", "listitem", "tablecell", "bold")
+PLAIN = ("top", "listitem", "tablecell", "caption", "bold")
 DECODED_ATOMS = {"AMP": "&", "LT": "<"}
 WATCHDOG = 30.0
 TRIVIAL = {"a", "SP", "NL"}
@@ -208,6 +221,8 @@ class Runner:
         self.lang = lang
         self.ref = {}        # (tag, ctx, mode, opener spelling) -> shape of the case with body <<a>>
         self.single = {}     # (tag, atom, mode) -> failure of the one-lexeme body at top level
+        self.plain = {}      # (tag, ctx, mode) -> failure of the body <<a>> in that context
+        self.simpler = {}    # (tag, ctx, body, mode) -> failure of a simpler case in the same context
 
     def document(self, c, page=None):
         main = ("{{%s}}" % page) if c["ctx"] == "tplbody" else CTX[c["ctx"]] % region_of(c)
@@ -288,7 +303,44 @@ def _worker(args):
             # minimal failing input: when one of the lexemes fails alone at top level, the case is
             # attributed to that one-lexeme case (its own observation and fields make the key)
             attributed = None
-            if (len(c["body"]) > 1 or c["ctx"] != "top") and c.get("pair", "none") == "none":
+            # does the context already lose the region with the plain one-word body?  Then every case
+            # of this (tag, context, mode) fails for that reason: one key for all of them
+            pk = (c["tag"], c["ctx"], mode)
+            if pk not in run.plain:
+                pc = dict(c, body=["a"], decoded=["a"], ospell="lower", cspell="lower", pair="none", where="after")
+                o1, b1 = run.compare(pc, mode, "Bref-%s-lower" % c["tag"])
+                nparse += 1
+                run.plain[pk] = ({"cid": cid, "case": pc, "mode": mode, "lang": lang, "fields": b1, "observed": o1,
+                                  "seen_in": None, "plain": True} if b1 else None)
+            if run.plain[pk]:
+                attributed = dict(run.plain[pk], seen_in=c)
+            elif c.get("pair", "none") == "none":
+                # simpler cases in the same context: the same body with lower-case tags, then each lexeme alone
+                simpler = []
+                if (c.get("ospell", "lower"), c.get("cspell", "lower")) != ("lower", "lower"):
+                    simpler.append(c["body"])
+                if len(c["body"]) > 1:
+                    simpler += [[x] for x in c["body"]]
+                for b in simpler:
+                    k = (c["tag"], c["ctx"], tuple(b), mode)
+                    if k not in run.simpler:
+                        run.simpler[k] = None
+                        sc0 = SINGLES.get((c["tag"], b[0])) if len(b) == 1 else None
+                        if len(b) == 1 and sc0 is None:
+                            continue
+                        sc = dict(c, body=b, ospell="lower", cspell="lower",
+                                  decoded=(sc0["decoded"] if sc0 else c["decoded"]), restored=(sc0["restored"] if sc0 else c["restored"]))
+                        if sc["ctx"] == "tplbody":
+                            continue          # no page of its own in the archive
+                        o2, b2 = run.compare(sc, mode, None)
+                        nparse += 1
+                        if b2:
+                            run.simpler[k] = {"cid": cid, "case": sc, "mode": mode, "lang": lang, "fields": b2,
+                                              "observed": o2, "seen_in": None}
+                    if run.simpler[k]:
+                        attributed = dict(run.simpler[k], seen_in=c)
+                        break
+            if attributed is None and (len(c["body"]) > 1 or c["ctx"] != "top") and c.get("pair", "none") == "none":
                 for x in c["body"]:
                     k = (c["tag"], x, mode)
                     if k not in run.single:
@@ -327,12 +379,14 @@ def key_of(f):
     c = f["case"]
     if "crash" in f["observed"]:
         return f["observed"]["crash"]
+    if f.get("plain"):
+        return "opaque ctx=%s tag=%s mode=%s plain-body field=%s" % (c["ctx"], c["tag"], f["mode"], "+".join(f["fields"]))
     spell = "" if (c.get("ospell", "lower"), c.get("cspell", "lower")) == ("lower", "lower") else \
         " open=%s close=%s" % (c["ospell"], c["cspell"])
     if c.get("pair", "none") != "none":
         spell += " second=%s-%s" % (c["pair"], c["where"])
-    return "opaque body=%s tag=%s%s ctx=%s mode=%s field=%s" % (
-        json.dumps(c["body"]), c["tag"], spell, c["ctx"], f["mode"], "+".join(f["fields"]))
+    return "opaque body=%s tag=%s ctx=%s%s mode=%s field=%s" % (
+        json.dumps(c["body"]), c["tag"], c["ctx"], spell, f["mode"], "+".join(f["fields"]))
 
 
 def what_of(f):
@@ -390,7 +444,8 @@ def run(ctx):
         if c["pair"] != "none" and c["body"] == ["a"]:
             REFSECOND[(c["tag"], c["pair"])] = c["second"]
     nl = len(atoms) - 1
-    expect = 36 * ((1 + nl + nl * nl) + 23 * (1 + nl))     # 6 x 4 spellings; the 23 non-default ones with bodies <= 1
+    # 6 tags x 7 contexts: 6 x 4 spellings, the 23 non-default ones with bodies <= 1; 6 tags x 11 parser-function contexts, bodies <= 1
+    expect = 42 * ((1 + nl + nl * nl) + 23 * (1 + nl)) + 66 * (1 + nl)
     nb = len([c for c in cases if len(c["body"]) <= 2 and c["pair"] == "none"])
     npair = len([c for c in cases if c["pair"] != "none"])
     # per tag the own closer is excluded: every tag has the same number of lexemes
@@ -400,14 +455,14 @@ def run(ctx):
     lang = W.LANGS[ctx.seed % len(W.LANGS)]
     cases.sort(key=lambda c: (c["tag"], c["ctx"], c["ospell"], c["cspell"], c["pair"], c["where"], c["body"]))     # TLC's BFS order depends on thread timing
     if quick:
-        # two-lexeme bodies: two of the six contexts each, rotating with the body and the seed (all
+        # two-lexeme bodies: a quarter of the contexts each, two-region documents a third, rotating with the body and the seed (all
         # contexts for bodies of <= 1 lexeme and for every spelling variant; thorough: everything)
         import zlib
         order = sorted(CTX)
         ncases = len(cases)
         cases = [c for c in cases if (len(c["body"]) < 2 and c["pair"] == "none") or
                  (zlib.crc32(json.dumps([c["tag"], c["body"], c["pair"], c["where"]]).encode()) + order.index(c["ctx"]) + ctx.seed)
-                 % (3 if c["pair"] == "none" else 2) == 0]
+                 % (4 if c["pair"] == "none" else 3) == 0]
         ctx.note("quick: %d of %d cases selected" % (len(cases), ncases))
     indexed = list(enumerate(cases))
     random.Random(ctx.seed).shuffle(indexed)
@@ -432,13 +487,14 @@ def run(ctx):
     ctx.set_cover(evaluations=nparse + nround, distinct_nontrivial=nontrivial, exhaustive=True,
                   cases=len(cases), cases_with_two_regions=npair, parses=nparse, round_trips=nround, simulated_3_lexeme_cases=nsim,
                   body_alphabet=len(atoms), action_coverage=cov, outside_atomwise_denotation=nskip, states=states, transitions=trans,
-                  rule="every case Opaque.tla generates — 6 tags x 6 contexts x all bodies of <= 2 lexemes over %d body lexemes "
+                  rule="every case Opaque.tla generates — 6 tags x 7 contexts (incl. table caption) x all bodies of <= 2 lexemes over %d body lexemes "
                        "(incl. tags spelled through entities) with lower-case tags, and all bodies of <= 1 lexeme for the 23 other "
-                       "opener x closer spellings (UPPER / Mixed / blank before > / attributes)%s — parsed with the production database (and without one in the plain contexts%s), tree "
+                       "opener x closer spellings (UPPER / Mixed / blank before > / attributes), for 11 parser-function-argument contexts "
+                       "and for documents with a second related region%s — parsed with the production database (and without one in the plain contexts%s), tree "
                        "projected to (count, text, shape) and compared with the spec's denotation; plus the uniq round trip; "
                        "distinct non-trivial = cases whose body contains a lexeme other than a / SP / NL"
                        % (len(atoms), "" if quick else " plus %d simulated 3-lexeme bodies" % nsim,
-                          ": single lexemes and a rotating quarter; two-lexeme bodies in two of the six contexts, rotating with body and seed" if quick else ""))
+                          ": single lexemes and a rotating quarter; two-lexeme bodies in a quarter of the contexts and two-region documents in a third, rotating with body and seed" if quick else ""))
     for cid, c in indexed[:3]:
         ctx.sample({"tag": c["tag"], "ctx": c["ctx"], "opener": c["ospell"], "closer": c["cspell"], "body": c["body"],
                     "text": CTX[c["ctx"]] % region_of(c), "kind": c["kind"], "decoded": concretise(c["decoded"], c)})
